@@ -8,7 +8,7 @@ from ..core import (AnalysisError, depends_on, dotted, is_self_attr, key_text, k
                     method_calls, names_in, params, stmt_calls, stmts_of, unparse, body_nodes,
                     assigned_targets, parent)
 from ..inline import inline_helpers
-from ..normal import inline_temps
+from ..normal import inline_temps, unroll_literal_loops
 from ..pattern import find, guards_of, pmatch
 
 THREAD = 'tenpy/tools/thread.py'
@@ -293,8 +293,10 @@ def check_threaded_storage(prog, rep):
     for name in list(meths):
         g, inl = inline_helpers(meths[name], 'ThreadedStorage.' + name, m, prog)
         if inl:
-            meths[name] = inline_temps(g, names_only=True)
             inl_all[name] = inl
+        # normal form: aliases of attributes (`worker = self.worker`) and named conditions are
+        # expanded, loops over a literal tuple of attributes are written out
+        meths[name] = inline_temps(unroll_literal_loops(g if inl else meths[name]))
     rep.extra['threaded_storage_inlined_helpers'] = inl_all
     # (1) add(k) to _waiting_for_load paired with put_task(disk_storage.load, k, return_dict=_loaded, return_key=k)
     for name, f in meths.items():
